@@ -144,14 +144,15 @@ NEAR_EXEMPT = [("GET", "/vmagentlog"), ("PUT", "/vmagentlog?x=1"), ("POST", "/ma
                ("PUT", "/vmagentlog/"), ("POST", "/machine/?comp=telemetrydata&x=1"), ("DELETE", "/machine/?comp=telemetrydata")]
 
 
-def concretize(case, rnd, n, harness_exe, thorough):
-    """-> (steps, meta) for one scenario; meta carries the inputs of the obs event and the prescribed outcome"""
+def concretize(case, rnd, n, harness_exe, thorough, session=None):
+    """-> (steps, meta) for one scenario; meta carries the inputs of the obs event and the prescribed outcome.
+    With `session` = (conn name, uid) the request is sent on that already open keep-alive connection."""
     sh = case["shape"]
     own = case["own"]
-    cid = "c%d" % n
+    cid = session[0] if session else "c%d" % n
     rid = "r%d" % n
     steps = []
-    uid = 0 if own["elevated"] else rnd.choice([1, 2, 65534])
+    uid = session[1] if session else (0 if own["elevated"] else rnd.choice([1, 2, 65534]))
     caller = caller_of(uid if own["has"] else 0, harness_exe, harness_exe)
     # request line
     if sh["prov"]:
@@ -230,7 +231,8 @@ def concretize(case, rnd, n, harness_exe, thorough):
     if own["has"]:
         dip, dport = rig.DEST[dest]
         attr = {"uid": uid, "admin": 1 if own["elevated"] else 0, "dip": dip, "dport": dport}
-    steps.append({"op": "connect", "conn": cid, "attr": attr})
+    if not session:
+        steps.append({"op": "connect", "conn": cid, "attr": attr})
     host_status = rnd.choice([200, 200, 201, 404, 500])
     req = {"op": "request", "conn": cid, "id": rid, "method": method, "target": target, "headers": headers,
            "body": {"seed": n, "len": blen}, "framing": framing,
@@ -241,7 +243,8 @@ def concretize(case, rnd, n, harness_exe, thorough):
     if declared is not None:
         req["declared_len"] = declared
     steps.append(req)
-    steps.append({"op": "close", "conn": cid})
+    if not session:
+        steps.append({"op": "close", "conn": cid})
     steps.append({"op": "snapshot", "tag": rid + ":after"})
     steps.append({"op": "fault", "rules_lookup_fails": False})
     meta = {
@@ -249,7 +252,8 @@ def concretize(case, rnd, n, harness_exe, thorough):
         "uid": uid, "caller": caller, "rules": mode, "doc": doc, "fault": bool(case["fault"]),
         "keyPresent": case["key"] != "nokey", "method": method, "target": target, "trav": ".." in target.partition("?")[0],
         "prov": target == "/provision", "exempt": exempt, "bodyLen": body_len_seen, "sentLen": blen, "framing": framing,
-        "spoof": spoof, "hostStatus": host_status, "skip": skip, "headers": headers,
+        "spoof": spoof, "hostStatus": host_status, "skip": skip, "headers": headers, "attr": attr,
+        "session": bool(session),
     }
     return steps, meta
 
@@ -264,14 +268,16 @@ def census(headers):
     return out
 
 
-def date_is_proxy(v, spoofed_values):
+def date_is_proxy(v, spoofed_values, recv_ms=None):
+    """the proxy's current time: RFC1123, within a few seconds of the instant the host received the request"""
     if v in spoofed_values:
         return False
     try:
         t = email.utils.parsedate_to_datetime(v).timestamp()
     except Exception:
         return False
-    return abs(t - time.time()) < 3600
+    ref = recv_ms / 1000.0 if recv_ms else time.time()
+    return -3.0 <= ref - t <= 5.0
 
 
 def failed_bag(snapshot):
@@ -326,9 +332,7 @@ def observe(events, metas):
             if w[0] - 2 <= seq <= (w[1] or 1 << 60):
                 hc = hclose.get(h)
                 if hc is not None:
-                    stray += hc["bytesTotal"] - hc["bytesParsed"]
-                    if not relayed:
-                        stray += hc["bytesParsed"]
+                    stray += hc["bytesTotal"] - hc["bytesParsed"]      # bytes that never formed a complete request
         row = {"e": "obs", "id": rid, "attributed": m["attributed"], "elevated": m["elevated"], "dest": m["dest"],
                "rules": m["rules"], "doc": doc_to_tla(m["doc"]) if m["doc"] else EMPTY_DOC,
                "caller": {k: m["caller"][k] for k in ("user", "groups", "proc", "exe")},
@@ -347,7 +351,7 @@ def observe(events, metas):
                               and h["method"] == m["method"] and h["target"] == m["target"],
                 "hClaims": len(claims),
                 "hClaimsElevated": bool(claims) and claims[0] == '{ "isRoot": "true"}',   # what the header states
-                "hDate": len(dates), "hDateIsProxy": bool(dates) and date_is_proxy(dates[0], spoofed),
+                "hDate": len(dates), "hDateIsProxy": bool(dates) and date_is_proxy(dates[0], spoofed, h.get("t")),
                 "hClientCopies": sum(1 for v in claims + dates if v in spoofed) +
                                  (sum(1 for v in auths if v in spoofed) if (m["keyPresent"] and not m["exempt"]) else 0),
                 "hAuth": len(auths),
@@ -443,7 +447,46 @@ def pipeline(c):
                 continue
             steps += st
             metas.append(m)
-        jobs.append((bi, steps, metas, name))
+        jobs.append([bi, steps, metas, name])
+    # keep-alive sessions: several scenarios with the same attribution on ONE connection (the environment may
+    # change between the requests); a shape that leaves an unread body on the wire goes last
+    by_own = {}
+    for k in cases:
+        by_own.setdefault(json.dumps(k["own"], sort_keys=True), []).append(k)
+    nsess = 300 if not thorough else 3000
+    sess_jobs = [[] for _ in range(nb)]
+    base = len(cases) + 1000
+    for si in range(nsess):
+        group = by_own[rnd.choice(sorted(by_own))]
+        seq = [rnd.choice(group) for _ in range(rnd.randint(2, 4))]
+        seq = [k for k in seq if not k["shape"]["over"]] + [k for k in seq if k["shape"]["over"]][:1]
+        own = seq[0]["own"]
+        uid = 0 if own["elevated"] else rnd.choice([1, 2, 65534])
+        bi = si % nb
+        name, exe = jobs[bi][3], os.path.join(util.BUILD, "run", jobs[bi][3], "verif-agent")
+        conn = "k%d" % si
+        attr = None
+        if own["has"]:
+            dip, dport = rig.DEST[own["dest"]]
+            attr = {"uid": uid, "admin": 1 if own["elevated"] else 0, "dip": dip, "dport": dport}
+        ssteps, smetas, first = [], [], True
+        for j, k in enumerate(seq):
+            st, m = concretize(k, rnd, base + si * 10 + j, exe, thorough, session=(conn, uid))
+            if m["skip"]:
+                continue
+            if first:
+                # the connection is opened after the first request's environment is in place
+                idx = next(i for i, x in enumerate(st) if x.get("op") == "request")
+                st.insert(idx, {"op": "connect", "conn": conn, "attr": attr})
+                first = False
+            m["conn"] = conn
+            ssteps += st
+            smetas.append(m)
+        if not smetas:
+            continue
+        ssteps.append({"op": "close", "conn": conn})
+        jobs[bi][1].extend(ssteps)
+        jobs[bi][2].extend(smetas)
     rows, drifts, panics, nev = [], [], [], 0
     t = util.Timer()
     with concurrent.futures.ProcessPoolExecutor(max_workers=4) as ex:
@@ -459,10 +502,13 @@ def pipeline(c):
         cur = []
         for s in steps:
             cur.append(s)
-            if s.get("op") == "fault" and s.get("rules_lookup_fails") is False and len(cur) > 3:
-                rid = next((x["id"] for x in cur if x.get("op") == "request"), None)
-                if rid:
-                    steps_by_id[rid] = cur
+            closes = s.get("op") == "close" and str(s.get("conn", "")).startswith("k")
+            single_end = (s.get("op") == "fault" and s.get("rules_lookup_fails") is False and len(cur) > 3
+                          and not any(str(x.get("conn", "")).startswith("k") for x in cur))
+            if closes or single_end:
+                for x in cur:
+                    if x.get("op") == "request":
+                        steps_by_id[x["id"]] = cur
                 cur = []
     out = {"rows": rows, "drifts": drifts, "panics": panics, "events": nev, "cases": len(cases),
            "gen": {"distinct": res.distinct, "generated": res.generated},
